@@ -870,6 +870,9 @@ class SymInt:
                 return v
         raise RuntimeError("no feasible value for %s" % self.name)
 
+    def __bool__(self):
+        return self.concretise() != 0
+
     def __index__(self):
         return self.concretise()
 
@@ -888,6 +891,14 @@ class SymInt:
     def _cmp(self, o, f):
         z = self._z(o)
         if z is None:
+            if isinstance(o, float):
+                if math.isnan(o):
+                    return f(0.0, o)
+                if math.isinf(o):
+                    return f(0.0, o)        # any finite integer compares with +-inf like 0 does
+                return SymBool(f(z3.ToReal(self.t), _z3c(Fraction(o))))
+            if isinstance(o, Fraction):
+                return SymBool(f(z3.ToReal(self.t), _z3c(o)))
             return NotImplemented
         return SymBool(f(self.t, z))
 
@@ -910,7 +921,8 @@ class SymInt:
         return self._cmp(o, lambda a, b: a >= b)
 
     def __hash__(self):
-        return 0  # constant: set / dict / `in` resolve aliasing through __eq__ decisions
+        # hashing forces the value (a fork over the feasible ones): sets / dicts then behave exactly as with ints
+        return hash(self.concretise())
 
     def __add__(self, o):
         return self.concretise() + o
@@ -933,6 +945,7 @@ class SymInt:
 
 
 numbers.Integral.register(SymInt)
+numbers.Real.register(Rat)
 
 
 # ----------------------------------------------------------------------------------------------------------------------
